@@ -1,4 +1,5 @@
 (* C05 -- dispatch on protocol discriminator and message type is exact. *)
+From NV Require C19.Globals.
 From NV Require Import Lib.Base Codec.Lang Codec.Def Codec.Sem Codec.Total Codec.Dispatch Codec.DispatchProofs Codec.GenDefs Codec.Final
   Gen.GenMsgs Gen.GenTypes Gen.GenDispatch Spec.MsgTypes.
 From Coq Require Import String.
@@ -65,6 +66,14 @@ Example C05_example :
   exists pm, plain_decode (Some [126; 0; 67]) = Ok pm /\ map fst (pm_bodies pm) = ["RegistrationComplete"%string].
 Proof. eexists. split; vm_compute; reflexivity. Qed.
 
+(* the functions this property is about are functions of their arguments: the files it is anchored in declare
+   no package-level variable other than the pinned read-only tables (or a never-touched one of plain type) and
+   none of their functions writes, slices, takes the address of, passes on or calls a method of a
+   package-level variable (logger entries excepted) -- evaluated on the current source (C19/Globals.v) *)
+Theorem C05_anchor_files_keep_no_state :
+  Globals.hidden_state_free Globals.anchors_C05 = true.
+Proof. vm_compute. reflexivity. Qed.
+
 Print Assumptions C05_dispatch_checked.
 Print Assumptions C05_tables_pinned.
 Print Assumptions C05_plain_decode_routes.
@@ -72,3 +81,4 @@ Print Assumptions C05_decode_dispatch.
 Print Assumptions C05_reject.
 Print Assumptions C05_encode_dispatch_partial.
 Print Assumptions C05_encode_nil_body_refuted.
+Print Assumptions C05_anchor_files_keep_no_state.
